@@ -208,6 +208,10 @@ class NativeTrace:
             if m and int(m.group(1)) in self.proc_target:
                 self.events.append(('reap', self.proc_target[int(m.group(1))], int(m.group(3)) if m.group(3) else 'killed'))
                 continue
+            m = re.match(r'notify w\d+ ok .*src_t(\d+)', l)
+            if m:
+                self.events.append(('notify', int(m.group(1))))
+                continue
             if l.startswith('signal'):
                 self.events.append(('signal',))
             if l.startswith('main_done'):
